@@ -362,6 +362,14 @@ var c12End = Register(Prop[c12Case]{
 	ID: "C12", Name: "absorbing-end",
 	Gen: func(t *rapid.T) c12Case {
 		o := scriptOpts{maxNodes: 3, maxDepth: 3, maxBody: 4, stopBias: 2, forwardOnly: true, extraStmt: func(g *scriptGen, depth int) *Stmt {
+			if rapid.IntRange(0, 7).Draw(g.t, "eoferr") == 0 {
+				// a host function whose error wraps io.EOF: an error, not the end of the dialogue
+				if rapid.Bool().Draw(g.t, "inline") {
+					g.lineID++
+					return &Stmt{K: "line", Text: []TextPart{{S: fmt.Sprintf("L%d ", g.lineID)}, {E: call("eoferr")}}}
+				}
+				return &Stmt{K: "call", Fn: "eoferr"}
+			}
 			if rapid.IntRange(0, 5).Draw(g.t, "boom") == 0 {
 				// a host function that panics: whatever Next does about it, it must not claim that the dialogue has ended and then go on
 				return &Stmt{K: "call", Fn: "boom"}
@@ -464,3 +472,33 @@ var c11Titles = Register(Prop[c11TitleCase]{
 })
 
 func TestC11Titles(t *testing.T) { Check(t, c11Titles) }
+
+// Every nesting depth 1..24 of if clauses and option bodies (any mix) with a <<stop>> at the bottom and statements left
+// behind it at every level.
+var c12Deep = Register(Prop[c12Case]{ID: "C12", Name: "deep-stop", Run: runC12, Render: c12End.Render})
+
+func TestC12DeepStop(t *testing.T) {
+	Enumerate(t, c12Deep, true, "a <<stop>> nested 1..24 blocks deep (if clauses, option bodies, alternating either way), with a line and a set statement left behind it at every level, then 4 further calls",
+		func(yield func(c12Case) bool) {
+			for depth := 1; depth <= 24; depth++ {
+				for _, pattern := range []string{"if", "opts", "if-opts", "opts-if"} {
+					body := []*Stmt{{K: "line", Text: []TextPart{{S: "at the bottom"}}}, {K: "stop"}, {K: "line", Text: []TextPart{{S: "behind the stop"}}}}
+					for d := depth; d >= 1; d-- {
+						useIf := pattern == "if" || (pattern == "if-opts" && d%2 == 1) || (pattern == "opts-if" && d%2 == 0)
+						var block *Stmt
+						if useIf {
+							block = &Stmt{K: "if", Clauses: []*Clause{{Cond: boolean(true), Body: body}}}
+						} else {
+							block = &Stmt{K: "opts", Opts: []*Opt{{Text: []TextPart{{S: fmt.Sprintf("down %d", d)}}, Body: body}}}
+						}
+						body = []*Stmt{{K: "line", Text: []TextPart{{S: fmt.Sprintf("level %d", d)}}}, block, {K: "set", Var: "k1", Op: "+=", E: num("1")}, {K: "line", Text: []TextPart{{S: fmt.Sprintf("behind level %d", d)}}}}
+					}
+					sc := &Script{Files: [][]*Node{{{Title: "A", Body: body}, {Title: "B", Body: []*Stmt{{K: "line", Text: []TextPart{{S: "never"}}}}}}}}
+					c := c12Case{flowCase: flowCase{Script: sc, Vars: flowVars, Choices: []int{0}}, After: []int{0, 1, -1, 7}}
+					if !yield(c) {
+						return
+					}
+				}
+			}
+		})
+}
